@@ -37,7 +37,7 @@ impl Chooser {
   }
 
   fn take(&mut self, n: usize, costly: bool) -> usize {
-    assert!(n >= 1, "choice point without options");
+    assert!(n >= 1, "MACHINERY: choice point without options");
     let i = self.trace.len();
     let mut c = if i < self.prefix.len() { self.prefix[i] } else { 0 };
     if c as usize >= n {
